@@ -293,6 +293,294 @@ example : ∃ out, serializeObjs exE_os = .ok out ∧
      ⟨rfl, fun h => absurd h (by decide)⟩, trivial, trivial⟩
     (fun o t h => by cases h) ⟨_, List.mem_cons_of_mem _ (List.mem_cons_of_mem _ List.mem_cons_self), rfl⟩
 
+/-! #### the App and Wifi families: accepted byte strings through `c03_all` (the parsed stacks are what `parseChain` returns: `rfl`) -/
+
+/-- EthernetII / ARP request / RawPDU (the 18 bytes of minimum-frame padding of the 60-byte frame become ARP's payload) -/
+def exArp_bytes : Bytes :=
+  [1, 2, 3, 4, 5, 6, 7, 8, 9, 10, 11, 12, 8, 6, 0, 1, 8, 0, 6, 4, 0, 1, 7, 8, 9, 10, 11, 12, 10, 0, 0, 1, 0, 0, 0, 0,
+   0, 0, 10, 0, 0, 2, 0, 0, 0, 0, 0, 0, 0, 0, 0, 0, 0, 0, 0, 0, 0, 0, 0, 0]
+def exArp_os : List AnyObj :=
+  [AnyObj.l2 (L2.Obj.eth { dst := [1, 2, 3, 4, 5, 6], src := [7, 8, 9, 10, 11, 12], ptype := 2054 }),
+   AnyObj.app
+     (App.Obj.arp
+       { h := [0, 1, 8, 0, 6, 4, 0, 1, 7, 8, 9, 10, 11, 12, 10, 0, 0, 1, 0, 0, 0, 0, 0, 0, 10, 0, 0, 2] }),
+   AnyObj.raw [0, 0, 0, 0, 0, 0, 0, 0, 0, 0, 0, 0, 0, 0, 0, 0, 0, 0]]
+set_option maxRecDepth 16384 in
+example : parseChain (exArp_bytes.length + 2) "EthernetII" exArp_bytes = .ok exArp_os := rfl
+set_option maxRecDepth 16384 in
+example : serializeObjs exArp_os = .ok exArp_bytes := rfl
+set_option maxRecDepth 16384 in
+example : ∃ out, serializeObjs exArp_os = .ok out ∧
+    ∃ os', parseChain (out.length + 2) "EthernetII" out = .ok os' ∧ ViewEqAll (padAll exArp_os) exArp_os os' :=
+  c03_all "EthernetII" exArp_bytes exArp_os (by decide) rfl
+    ⟨trivial, trivial, trivial, trivial⟩
+    (fun o t h => by cases h)
+
+/-- Dot3 / LLC (DSAP = SSAP = 0x42, UI) / STP configuration BPDU -/
+def exStp_bytes : Bytes :=
+  [1, 128, 194, 0, 0, 0, 7, 8, 9, 10, 11, 12, 0, 38, 66, 66, 3, 0, 0, 0, 0, 1, 128, 0, 1, 2, 3, 4, 5, 6, 0, 0, 0, 4,
+   128, 1, 1, 2, 3, 4, 5, 7, 128, 2, 1, 0, 20, 0, 2, 0, 15, 0]
+def exStp_os : List AnyObj :=
+  [AnyObj.l2 (L2.Obj.dot3 { dst := [1, 128, 194, 0, 0, 0], src := [7, 8, 9, 10, 11, 12], len := 38 }),
+   AnyObj.l2
+     (L2.Obj.llc
+       { dsap := 66,
+         ssap := 66,
+         typ := L2.LlcFormat.unnumbered,
+         ctlLen := 1,
+         c0 := 3,
+         c1 := 0,
+         infoLen := 0,
+         infos := [] }),
+   AnyObj.app
+     (App.Obj.stp
+       { h := [0, 0, 0, 0, 1, 128, 0, 1, 2, 3, 4, 5, 6, 0, 0, 0, 4, 128, 1, 1, 2, 3, 4, 5, 7, 128, 2, 1, 0, 20, 0, 2, 0,
+               15, 0] })]
+set_option maxRecDepth 16384 in
+example : parseChain (exStp_bytes.length + 2) "Dot3" exStp_bytes = .ok exStp_os := rfl
+set_option maxRecDepth 16384 in
+example : serializeObjs exStp_os = .ok exStp_bytes := rfl
+set_option maxRecDepth 16384 in
+example : ∃ out, serializeObjs exStp_os = .ok out ∧
+    ∃ os', parseChain (out.length + 2) "Dot3" out = .ok os' ∧ ViewEqAll (padAll exStp_os) exStp_os os' :=
+  c03_all "Dot3" exStp_bytes exStp_os (by decide) rfl
+    ⟨trivial, trivial, trivial, trivial⟩
+    (fun o t h => by cases h)
+
+/-- RadioTap (no fields, no FCS) / Dot11Beacon with SSID "test" and supported rates — the Dot11 class is selected by
+    `Dot11::from_bytes` (entry `Dot11*`) from the frame-control octet 0x80 -/
+def exBeacon_bytes : Bytes :=
+  [0, 0, 8, 0, 0, 0, 0, 0, 128, 0, 0, 0, 255, 255, 255, 255, 255, 255, 1, 2, 3, 4, 5, 6, 1, 2, 3, 4, 5, 6, 16, 0, 1, 2,
+   3, 4, 5, 6, 7, 8, 100, 0, 1, 4, 0, 4, 116, 101, 115, 116, 1, 4, 130, 132, 139, 150]
+def exBeacon_os : List AnyObj :=
+  [AnyObj.wifi (Wifi.Obj.radiotap { hdr := [0, 0, 8, 0], payload := [0, 0, 0, 0] }),
+   AnyObj.wifi
+     (Wifi.Obj.dot11
+       { cls := "Dot11Beacon",
+         lay := { fam := Wifi.Fam.mgmt, body := [12], tagged := true, payload := false },
+         hdr := [128, 0, 0, 0, 255, 255, 255, 255, 255, 255],
+         ext := [1, 2, 3, 4, 5, 6, 1, 2, 3, 4, 5, 6, 16, 0],
+         addr4 := [0, 0, 0, 0, 0, 0],
+         body := [1, 2, 3, 4, 5, 6, 7, 8, 100, 0, 1, 4],
+         opts := [{ code := 0, lenField := 4, data := [116, 101, 115, 116] },
+                  { code := 1, lenField := 4, data := [130, 132, 139, 150] }],
+         optSize := 12 })]
+set_option maxRecDepth 16384 in
+example : parseChain (exBeacon_bytes.length + 2) "RadioTap" exBeacon_bytes = .ok exBeacon_os := rfl
+set_option maxRecDepth 16384 in
+example : serializeObjs exBeacon_os = .ok exBeacon_bytes := rfl
+set_option maxRecDepth 16384 in
+example : ∃ out, serializeObjs exBeacon_os = .ok out ∧
+    ∃ os', parseChain (out.length + 2) "RadioTap" out = .ok os' ∧ ViewEqAll (padAll exBeacon_os) exBeacon_os os' :=
+  c03_all "RadioTap" exBeacon_bytes exBeacon_os (by decide) rfl
+    ⟨trivial, trivial, trivial⟩
+    (fun o t h => by cases h)
+
+/-- RadioTap (FLAGS = FCS at end) / Dot11QoSData / SNAP / IP / UDP / RawPDU: the 4 FCS bytes are stripped by the RadioTap
+    constructor and recomputed (CRC-32 of the Dot11 frame) on serialization -/
+def exQos_bytes : Bytes :=
+  [0, 0, 9, 0, 2, 0, 0, 0, 16, 136, 0, 44, 0, 1, 2, 3, 4, 5, 6, 7, 8, 9, 10, 11, 12, 1, 2, 3, 4, 5, 6, 32, 0, 5, 0,
+   170, 170, 3, 0, 0, 0, 8, 0, 69, 0, 0, 31, 18, 52, 0, 0, 64, 17, 84, 152, 10, 0, 0, 1, 10, 0, 0, 2, 4, 210, 0, 53,
+   0, 11, 74, 32, 222, 173, 190, 170, 187, 204, 221]
+def exQos_os : List AnyObj :=
+  [AnyObj.wifi (Wifi.Obj.radiotap { hdr := [0, 0, 9, 0], payload := [2, 0, 0, 0, 16] }),
+   AnyObj.wifi
+     (Wifi.Obj.dot11
+       { cls := "Dot11QoSData",
+         lay := { fam := Wifi.Fam.data, body := [2], tagged := false, payload := true },
+         hdr := [136, 0, 44, 0, 1, 2, 3, 4, 5, 6],
+         ext := [7, 8, 9, 10, 11, 12, 1, 2, 3, 4, 5, 6, 32, 0],
+         addr4 := [0, 0, 0, 0, 0, 0],
+         body := [5, 0],
+         opts := [],
+         optSize := 0 }),
+   AnyObj.l2 (L2.Obj.snap { dsap := 170, ssap := 170, control := 3, org := 0, ethType := 2048 }),
+   AnyObj.ip
+     (Ip.Obj.ip
+       { version := 4,
+         ihl := 5,
+         tos := 0,
+         totLen := 31,
+         id := 4660,
+         fragOff := 0,
+         ttl := 64,
+         protocol := 17,
+         check := 21656,
+         src := [10, 0, 0, 1],
+         dst := [10, 0, 0, 2],
+         opts := [] }),
+   AnyObj.tr (Transport.Obj.udp { sport := 1234, dport := 53, len := 11, check := 18976 }),
+   AnyObj.raw [222, 173, 190]]
+set_option maxRecDepth 16384 in
+example : parseChain (exQos_bytes.length + 2) "RadioTap" exQos_bytes = .ok exQos_os := rfl
+def exQos_ser : Bytes :=
+  [0, 0, 9, 0, 2, 0, 0, 0, 16, 136, 0, 44, 0, 1, 2, 3, 4, 5, 6, 7, 8, 9, 10, 11, 12, 1, 2, 3, 4, 5, 6, 32, 0, 5, 0,
+   170, 170, 3, 0, 0, 0, 8, 0, 69, 0, 0, 31, 18, 52, 0, 0, 64, 17, 84, 152, 10, 0, 0, 1, 10, 0, 0, 2, 4, 210, 0, 53,
+   0, 11, 74, 32, 222, 173, 190, 173, 97, 132, 189]
+set_option maxRecDepth 16384 in
+example : serializeObjs exQos_os = .ok exQos_ser := rfl
+set_option maxRecDepth 16384 in
+example : ∃ out, serializeObjs exQos_os = .ok out ∧
+    ∃ os', parseChain (out.length + 2) "RadioTap" out = .ok os' ∧ ViewEqAll 0 exQos_os os' ∧
+      (splitRaw os').2 = (splitRaw exQos_os).2 :=
+  c03_all_net "RadioTap" exQos_bytes exQos_os (by decide) rfl
+    ⟨trivial, trivial, trivial, (by show (_ : Nat) < 65536; decide), trivial, trivial, trivial⟩
+    (fun o t h => by cases h) ⟨_, List.getElem_mem (by decide : 3 < exQos_os.length), rfl⟩
+
+/-- EthernetII / RSNEAPOL (EtherType 0x888e → `EAPOL::from_bytes` → key-descriptor type 2) with a 2-byte key -/
+def exEapol_bytes : Bytes :=
+  [1, 2, 3, 4, 5, 6, 7, 8, 9, 10, 11, 12, 136, 142, 1, 3, 0, 97, 2, 1, 10, 0, 16, 0, 0, 0, 0, 0, 0, 0, 1, 0, 0, 0, 0,
+   0, 0, 0, 0, 0, 0, 0, 0, 0, 0, 0, 0, 0, 0, 0, 0, 0, 0, 0, 0, 0, 0, 0, 0, 0, 0, 0, 0, 0, 0, 0, 0, 0, 0, 0, 0, 0, 0,
+   0, 0, 0, 0, 0, 0, 0, 0, 0, 0, 0, 0, 0, 0, 0, 0, 0, 0, 0, 0, 0, 0, 0, 0, 0, 0, 0, 0, 0, 0, 0, 0, 0, 0, 0, 0, 0, 0,
+   0, 2, 170, 187]
+def exEapol_os : List AnyObj :=
+  [AnyObj.l2 (L2.Obj.eth { dst := [1, 2, 3, 4, 5, 6], src := [7, 8, 9, 10, 11, 12], ptype := 34958 }),
+   AnyObj.wifi
+     (Wifi.Obj.eapol
+       { rsn := true,
+         hdr := [1, 3, 0, 97, 2],
+         sub := [1, 10, 0, 16, 0, 0, 0, 0, 0, 0, 0, 1, 0, 0, 0, 0, 0, 0, 0, 0, 0, 0, 0, 0, 0, 0, 0, 0, 0, 0, 0, 0, 0, 0,
+                 0, 0, 0, 0, 0, 0, 0, 0, 0, 0, 0, 0, 0, 0, 0, 0, 0, 0, 0, 0, 0, 0, 0, 0, 0, 0, 0, 0, 0, 0, 0, 0, 0, 0, 0,
+                 0, 0, 0, 0, 0, 0, 0, 0, 0, 0, 0, 0, 0, 0, 0, 0, 0, 0, 0, 0, 0, 0, 0, 0, 2],
+         key := [170, 187] })]
+set_option maxRecDepth 16384 in
+example : parseChain (exEapol_bytes.length + 2) "EthernetII" exEapol_bytes = .ok exEapol_os := rfl
+set_option maxRecDepth 16384 in
+example : serializeObjs exEapol_os = .ok exEapol_bytes := rfl
+set_option maxRecDepth 16384 in
+example : ∃ out, serializeObjs exEapol_os = .ok out ∧
+    ∃ os', parseChain (out.length + 2) "EthernetII" out = .ok os' ∧ ViewEqAll (padAll exEapol_os) exEapol_os os' :=
+  c03_all "EthernetII" exEapol_bytes exEapol_os (by decide) rfl
+    ⟨trivial, (by show (_ : Nat) < 65540; decide), trivial⟩
+    (fun o t h => by cases h)
+
+/-- DHCP (entry class) with options: message type DISCOVER, host name "host", END -/
+def exDhcp_bytes : Bytes :=
+  [1, 1, 6, 0, 18, 52, 86, 120, 0, 0, 128, 0, 0, 0, 0, 0, 0, 0, 0, 0, 0, 0, 0, 0, 0, 0, 0, 0, 1, 2, 3, 4, 5, 6, 0, 0,
+   0, 0, 0, 0, 0, 0, 0, 0, 0, 0, 0, 0, 0, 0, 0, 0, 0, 0, 0, 0, 0, 0, 0, 0, 0, 0, 0, 0, 0, 0, 0, 0, 0, 0, 0, 0, 0, 0,
+   0, 0, 0, 0, 0, 0, 0, 0, 0, 0, 0, 0, 0, 0, 0, 0, 0, 0, 0, 0, 0, 0, 0, 0, 0, 0, 0, 0, 0, 0, 0, 0, 0, 0, 0, 0, 0, 0,
+   0, 0, 0, 0, 0, 0, 0, 0, 0, 0, 0, 0, 0, 0, 0, 0, 0, 0, 0, 0, 0, 0, 0, 0, 0, 0, 0, 0, 0, 0, 0, 0, 0, 0, 0, 0, 0, 0,
+   0, 0, 0, 0, 0, 0, 0, 0, 0, 0, 0, 0, 0, 0, 0, 0, 0, 0, 0, 0, 0, 0, 0, 0, 0, 0, 0, 0, 0, 0, 0, 0, 0, 0, 0, 0, 0, 0,
+   0, 0, 0, 0, 0, 0, 0, 0, 0, 0, 0, 0, 0, 0, 0, 0, 0, 0, 0, 0, 0, 0, 0, 0, 0, 0, 0, 0, 0, 0, 0, 0, 0, 0, 0, 0, 0, 0,
+   0, 0, 0, 0, 0, 0, 0, 0, 0, 0, 99, 130, 83, 99, 53, 1, 1, 12, 4, 104, 111, 115, 116, 255]
+def exDhcp_os : List AnyObj :=
+  [AnyObj.app
+     (App.Obj.dhcp
+       { h := [1, 1, 6, 0, 18, 52, 86, 120, 0, 0, 128, 0, 0, 0, 0, 0, 0, 0, 0, 0, 0, 0, 0, 0, 0, 0, 0, 0, 1, 2, 3, 4, 5,
+               6, 0, 0, 0, 0, 0, 0, 0, 0, 0, 0, 0, 0, 0, 0, 0, 0, 0, 0, 0, 0, 0, 0, 0, 0, 0, 0, 0, 0, 0, 0, 0, 0, 0, 0, 0,
+               0, 0, 0, 0, 0, 0, 0, 0, 0, 0, 0, 0, 0, 0, 0, 0, 0, 0, 0, 0, 0, 0, 0, 0, 0, 0, 0, 0, 0, 0, 0, 0, 0, 0, 0, 0,
+               0, 0, 0, 0, 0, 0, 0, 0, 0, 0, 0, 0, 0, 0, 0, 0, 0, 0, 0, 0, 0, 0, 0, 0, 0, 0, 0, 0, 0, 0, 0, 0, 0, 0, 0, 0,
+               0, 0, 0, 0, 0, 0, 0, 0, 0, 0, 0, 0, 0, 0, 0, 0, 0, 0, 0, 0, 0, 0, 0, 0, 0, 0, 0, 0, 0, 0, 0, 0, 0, 0, 0, 0,
+               0, 0, 0, 0, 0, 0, 0, 0, 0, 0, 0, 0, 0, 0, 0, 0, 0, 0, 0, 0, 0, 0, 0, 0, 0, 0, 0, 0, 0, 0, 0, 0, 0, 0, 0, 0,
+               0, 0, 0, 0, 0, 0, 0, 0, 0, 0, 0, 0, 0, 0, 0, 0, 0, 0, 0, 0, 0, 0, 0],
+         vend := [],
+         opts := [{ code := 53, lenField := 1, data := [1] },
+                  { code := 12, lenField := 4, data := [104, 111, 115, 116] },
+                  { code := 255, lenField := 0, data := [] }],
+         size := 14 })]
+set_option maxRecDepth 16384 in
+example : parseChain (exDhcp_bytes.length + 2) "DHCP" exDhcp_bytes = .ok exDhcp_os := rfl
+set_option maxRecDepth 16384 in
+example : serializeObjs exDhcp_os = .ok exDhcp_bytes := rfl
+set_option maxRecDepth 16384 in
+example : ∃ out, serializeObjs exDhcp_os = .ok out ∧
+    ∃ os', parseChain (out.length + 2) "DHCP" out = .ok os' ∧ ViewEqAll (padAll exDhcp_os) exDhcp_os os' :=
+  c03_all "DHCP" exDhcp_bytes exDhcp_os (by decide) rfl
+    ⟨trivial, trivial⟩
+    (fun o t h => by cases h)
+
+/-- VXLAN (entry class) / EthernetII / IP / UDP: the inner frame's minimum-frame padding (18 bytes) is cut off by the IP total length -/
+def exVxlan_bytes : Bytes :=
+  [8, 0, 0, 0, 0, 0, 42, 0, 1, 2, 3, 4, 5, 6, 7, 8, 9, 10, 11, 12, 8, 0, 69, 0, 0, 28, 18, 52, 0, 0, 64, 17, 84, 155,
+   10, 0, 0, 1, 10, 0, 0, 2, 4, 210, 0, 53, 0, 8, 230, 212, 0, 0, 0, 0, 0, 0, 0, 0, 0, 0, 0, 0, 0, 0, 0, 0, 0, 0]
+def exVxlan_os : List AnyObj :=
+  [AnyObj.app (App.Obj.vxlan { h := [8, 0, 0, 0, 0, 0, 42, 0] }),
+   AnyObj.l2 (L2.Obj.eth { dst := [1, 2, 3, 4, 5, 6], src := [7, 8, 9, 10, 11, 12], ptype := 2048 }),
+   AnyObj.ip
+     (Ip.Obj.ip
+       { version := 4,
+         ihl := 5,
+         tos := 0,
+         totLen := 28,
+         id := 4660,
+         fragOff := 0,
+         ttl := 64,
+         protocol := 17,
+         check := 21659,
+         src := [10, 0, 0, 1],
+         dst := [10, 0, 0, 2],
+         opts := [] }),
+   AnyObj.tr (Transport.Obj.udp { sport := 1234, dport := 53, len := 8, check := 59092 })]
+set_option maxRecDepth 16384 in
+example : parseChain (exVxlan_bytes.length + 2) "VXLAN" exVxlan_bytes = .ok exVxlan_os := rfl
+set_option maxRecDepth 16384 in
+example : serializeObjs exVxlan_os = .ok exVxlan_bytes := rfl
+set_option maxRecDepth 16384 in
+example : ∃ out, serializeObjs exVxlan_os = .ok out ∧
+    ∃ os', parseChain (out.length + 2) "VXLAN" out = .ok os' ∧ ViewEqAll 0 exVxlan_os os' ∧
+      (splitRaw os').2 = (splitRaw exVxlan_os).2 :=
+  c03_all_net "VXLAN" exVxlan_bytes exVxlan_os (by decide) rfl
+    ⟨trivial, trivial, (by show (_ : Nat) < 65536; decide), trivial, trivial⟩
+    (fun o t h => by cases h) ⟨_, List.getElem_mem (by decide : 2 < exVxlan_os.length), rfl⟩
+
+/-- the same beacon handed to `Dot11::from_bytes` directly (entry `Dot11*`): C03 holds with the re-parse through the factory -/
+def exBeaconE_bytes : Bytes :=
+  [128, 0, 0, 0, 255, 255, 255, 255, 255, 255, 1, 2, 3, 4, 5, 6, 1, 2, 3, 4, 5, 6, 16, 0, 1, 2, 3, 4, 5, 6, 7, 8, 100, 0, 1, 4, 0, 4, 116, 101, 115, 116, 1, 4, 130, 132, 139, 150]
+set_option maxRecDepth 16384 in
+example : parseChain (exBeaconE_bytes.length + 2) "Dot11*" exBeaconE_bytes = .ok exBeacon_os.tail := rfl
+set_option maxRecDepth 16384 in
+example : ∃ out, serializeObjs exBeacon_os.tail = .ok out ∧
+    ∃ os', parseChain (out.length + 2) "Dot11*" out = .ok os' ∧ ViewEqAll (padAll exBeacon_os.tail) exBeacon_os.tail os' :=
+  c03_all "Dot11*" exBeaconE_bytes exBeacon_os.tail (by decide) rfl ⟨trivial, trivial⟩ (fun o t h => by cases h)
+
+/-! #### built stacks (API objects) through `chain_reparse_all` -/
+
+/-- EthernetII / ARP built through the API: `serialize()` pads the 42-byte frame to 60, the re-parse hands the 18 zero bytes to
+    ARP's RawPDU — the comparison allows exactly `padAll = 18` zero bytes behind the (empty) payload -/
+def exArpB : List AnyObj := [exEth, .app (.arp (App.Arp.create [10,0,0,2] [10,0,0,1] [0,0,0,0,0,0] [7,8,9,10,11,12]))]
+theorem exArpB_stackable : StackableAll exArpB :=
+  ⟨⟨exEth_inv, trivial, trivial, trivial⟩, ⟨(by decide : (App.Arp.create _ _ _ _).h.length = 28), trivial, trivial, trivial⟩, trivial⟩
+example : padAll exArpB = 18 := rfl
+example : ∃ out, serializeObjs exArpB = .ok out ∧ out.length = 60 ∧
+    ∃ os', parseChain (out.length + 2) "EthernetII" out = .ok os' ∧ ViewEqAll 18 exArpB os' := by
+  rcases stackableAll_serializes _ exArpB_stackable with ⟨out, hser, hl⟩
+  rcases chain_reparse_all _ _ exArpB_stackable out hser with ⟨os', hp, hv⟩
+  exact ⟨out, hser, by rw [hl]; rfl, os', hp, hv⟩
+
+/-- EthernetII / RSNEAPOL() built through the API (empty key): the EAPOL length and the EtherType are derived; the re-parse goes
+    through `EAPOL::from_bytes` -/
+def exEapolB : List AnyObj := [exEth, .wifi (.eapol (Wifi.Eapol.create true))]
+theorem exEapolB_stackable : StackableAll exEapolB :=
+  ⟨⟨exEth_inv, trivial, trivial, ⟨trivial, .inr ⟨rfl, .inl (by decide)⟩⟩⟩,
+   ⟨⟨by decide, by decide⟩, trivial, ⟨by decide, fun _ => .inl (by decide), by decide⟩, trivial⟩, trivial⟩
+example : ∃ out, serializeObjs exEapolB = .ok out ∧
+    ∃ os', parseChain (out.length + 2) "EthernetII" out = .ok os' ∧ ViewEqAll 0 exEapolB os' := by
+  rcases stackableAll_serializes _ exEapolB_stackable with ⟨out, hser, _⟩
+  rcases chain_reparse_all _ _ exEapolB_stackable out hser with ⟨os', hp, hv⟩
+  exact ⟨out, hser, os', hp, hv⟩
+
+/-! #### the hypotheses matter (App / Wifi) -/
+
+/-- a RadioTap header that announces no FCS, with nothing behind it, is not a packet libtins can give back: the parsing
+    constructor wants 4 bytes behind the options (`RadioTap::RadioTap`: `radiotap_size + sizeof(uint32_t) > input.size()`) -/
+example : ¬ StackableAll [.wifi (.radiotap ⟨[0, 0, 8, 0], [0, 0, 0, 0]⟩)] := by
+  intro h
+  have h2 : Wifi.RadioTap.trl ⟨[0, 0, 8, 0], [0, 0, 0, 0]⟩ = 4 := h.1.2.2.2
+  revert h2
+  decide
+example : serializeObjs [.wifi (.radiotap ⟨[0, 0, 8, 0], [0, 0, 0, 0]⟩)] = .ok [0, 0, 8, 0, 0, 0, 0, 0] := rfl
+example : parseChain 10 "RadioTap" [0, 0, 8, 0, 0, 0, 0, 0] = .throw .malformedPacket := rfl
+
+/-- a Dot11Data frame with the protected bit clear in front of opaque bytes is not representable: the re-parse hands the body
+    to the SNAP constructor -/
+example : ¬ StackableAll [.wifi (.dot11 (Wifi.Dot11.create "Dot11Data" ⟨.data, [], false, true⟩ (Wifi.zeros 6) (Wifi.zeros 6))),
+    .raw [1, 2, 3]] := by
+  intro h
+  have h2 : ([1, 2, 3] : Bytes) = [] ∨ _ := h.1.2.2.2
+  rcases h2 with h2 | ⟨_, h2⟩
+  · cases h2
+  · revert h2; decide
+
 /-! #### the hypotheses matter -/
 
 /-- an IP object that claims to carry TCP in front of opaque bytes is not a packet a parser can give back: the re-parse
